@@ -1,5 +1,5 @@
 (* Proofs/ListGraderTotal.v -- C05, part 5: totality of the unordered branch (the model returns whenever the
-   subgraders return, by C06's termination theorem); under a grouping with equal-size groups the total credit
+   subgraders return, by C06's unconditional termination theorem); under a grouping with equal-size groups the total credit
    of ALL reported entries is maximal over all one-to-one assignments of groups to answers. *)
 From Coq Require Import ZArith QArith Qabs List Bool Arith Lia Lqa Permutation Sorted.
 From Verif.Lib Require Import QRound.
@@ -33,41 +33,51 @@ Section Returns.
   Variables X A : Type.
   Variable check : nat -> A -> ginput X -> option (list (nat * ginput X)) -> option result.
 
-  (* the unordered branch returns whenever every subgrader call returns a grade in [0,1] and the scaled costs
-     stay below sys.maxsize (n * D < 2^63 - 1, D the common denominator of the cost matrix) *)
+  (* the unordered branch returns whenever every subgrader call returns (C06: the solver terminates on every
+     integer matrix, so no bound on the grades or on the scaled costs is needed) *)
   Theorem unordered_returns : forall n answers gin R,
     1 <= n -> length answers = n -> length gin = n ->
     result_matrix X A check answers gin = Some R ->
-    (forall p r, pick R p = Some r -> (0 <= result_grade r <= 1)%Q) ->
-    (Z.of_nat n * common_den (cost_matrix R) < zmaxsize)%Z ->
     exists rs, unordered_results X A check solveZ answers gin = Some rs.
   Proof.
-    intros n answers gin R Hn La Lg HR Hg HB. unfold unordered_results. rewrite HR.
+    intros n answers gin R Hn La Lg HR. unfold unordered_results. rewrite HR.
     destruct (result_matrix_spec X A check _ _ _ HR) as [Hrect _]. rewrite La, Lg in Hrect.
     assert (HRC : rect n n (cost_matrix R)).
     { destruct Hrect as [H1 H2]. unfold rect, cost_matrix. rewrite map_length. split; [exact H1|].
       apply Forall_forall. intros row Hr. apply in_map_iff in Hr. destruct Hr as [row' [<- Hin]].
       rewrite map_length. rewrite Forall_forall in H2. apply H2. exact Hin. }
-    set (D := common_den (cost_matrix R)) in *.
-    pose proof (common_den_pos (cost_matrix R)) as HD. fold D in HD.
-    assert (Hbound : forall i j, i < n -> j < n -> (0 <= gz (scaled_matrix (cost_matrix R)) i j <= D)%Z).
-    { intros i j Hi Hj. destruct (rect_pick n R i j Hrect Hi Hj) as [r Hr].
-      pose proof (scaled_get (cost_matrix R) i j) as E. fold D in E.
-      pose proof (pick_cost R (i, j) r Hr) as Ec. simpl in Ec. rewrite Ec in E.
-      destruct (Hg _ _ Hr) as [G0 G1].
-      assert (HDq : (0 < inject_Z D)%Q) by (change 0%Q with (inject_Z 0); rewrite <- Zlt_Qlt; exact HD).
-      split.
-      - rewrite Zle_Qle. rewrite E. change (inject_Z 0) with 0%Q. nra.
-      - rewrite Zle_Qle. rewrite E. nra. }
     destruct (solveZ (cost_matrix R)) as [idx|] eqn:ES.
     - destruct (solveZ_ok n n (cost_matrix R) idx Hn Hn HRC ES) as [[_ [_ Hin]] _].
       apply all_some_total. intros o Ho. apply in_map_iff in Ho. destruct Ho as [[i j] [<- Hp]].
       rewrite Forall_forall in Hin. specialize (Hin _ Hp). simpl in Hin.
       destruct (rect_pick n R i j Hrect (proj1 Hin) (proj2 Hin)) as [r Hr]. rewrite Hr. discriminate.
     - exfalso. unfold solveZ in ES.
-      apply (munkres_terminates_bounded n n (scaled_matrix (cost_matrix R)) D Hn Hn (rect_scaled _ _ _ HRC) Hbound).
-      + rewrite Nat.max_id. exact HB.
-      + exact ES.
+      exact (munkres_terminates n n (scaled_matrix (cost_matrix R)) Hn Hn (rect_scaled _ _ _ HRC) ES).
+  Qed.
+
+  Lemma flatten_plain_total : forall rs, Forall (fun r => exists e, r = GOne e) rs ->
+    exists es, flatten_plain rs = Some es.
+  Proof.
+    intros rs H. unfold flatten_plain. apply all_some_total. intros o Ho.
+    apply in_map_iff in Ho. destruct Ho as [r [<- Hr]]. rewrite Forall_forall in H.
+    destruct (H r Hr) as [e ->]. discriminate.
+  Qed.
+
+  (* ... hence an unordered ListGrader without grouping always returns when its subgrader returns a short-form
+     result for every (answer, input) pair and the submission has the right length *)
+  Theorem unordered_flat_returns : forall (dX : X) c answers xs R,
+    lg_ordered c = false -> lg_grouping c = [] -> 1 <= length xs -> length answers = length xs ->
+    result_matrix X A check answers (map GOne xs) = Some R ->
+    (forall p r, pick R p = Some r -> exists e, r = GOne e) ->
+    exists es, perform_check X A dX check solveZ c answers xs = Some es.
+  Proof.
+    intros dX c answers xs R Ho Hg Hn La HR Hshort. unfold perform_check. rewrite Hg, La, Nat.eqb_refl.
+    unfold sub_results. rewrite Ho.
+    destruct (unordered_returns (length xs) answers (map GOne xs) R Hn La (map_length _ _) HR) as [rs Hrs].
+    rewrite Hrs. apply flatten_plain_total.
+    unfold unordered_results in Hrs. rewrite HR in Hrs.
+    destruct (solveZ (cost_matrix R)) as [idx|]; [| discriminate].
+    eapply picks_Forall; [| exact Hrs]. exact Hshort.
   Qed.
 End Returns.
 
